@@ -44,6 +44,18 @@ def writeArray {α : Type} (a : List α) (f : α → Bytes) : Bytes := writeArra
 def writeInt32Array (a : List Int) : Bytes := writeArray a writeInt32
 def writeStringArray (a : List Bytes) : Bytes := writeArray a writeString
 
+/-- time.go `milliseconds(d)`: a duration (ns) as int32 milliseconds, clamped (only its width matters here) -/
+def milliseconds (d : Int) : Int := d / 1000000
+
+/-- a `*recordBatch` (recordbatch.go): its `size` field and the bytes `writeRecordBatch` emits for it; that the two
+agree is property C05's (hypothesis `ok`) -/
+structure RecordBatchBlob where
+  size : Int
+  body : Bytes
+  ok : (body.length : Int) = size
+
+@[simp] theorem RecordBatchBlob.len (rb : RecordBatchBlob) : ((rb.body.length : Nat) : Int) = rb.size := rb.ok
+
 /-! ### length lemmas (the simp set of `legacy_size`) -/
 theorem len_encInt (k : Nat) (i : Int) : (encInt k i).length = k := by simp [encInt, be_length]
 @[simp] theorem len_writeInt8 (i : Int) : (writeInt8 i).length = 1 := len_encInt 1 i
